@@ -2,7 +2,7 @@
 
 define("shown_task_state(t, working)", "ite(not working and t.state == BaseTaskState.WORKING, BaseTaskState.READY, t.state)")
 define("shown_component_state(c, working)", "ite(not working and c.state == BaseComponentState.WORKING, BaseComponentState.READY, c.state)")
-define("kept(L1, L0)", "seq_eq(L1, L0)")
+define("kept(L1, L0)", "same(L1, L0)")
 
 # ------------------------------------------------------------------------------------------------ leaves
 contract("BaseTask.record_state", props=["C08", "C01"], types={"working": "Bool"},
